@@ -127,7 +127,21 @@ def stdFactory : Factory :=
 def parseFactory (s : String) : Option Factory :=
   if s == "-" then some [] else if s == "std" then some stdFactory else (s.splitOn ";").mapM parseFacEntry
 
+/-- `decx:0` (the harness cancels the context at the first `Read` of the call, on a reader that delivers one byte per
+`Read`, so that every request of the decoder reaches it) is written `.decodeCtxAt 0` by the parser and resolved against
+the model's state by `resolveOps`: with the header of the sequence still to be read the first read is the header's and
+the first check after it sees the cancellation (`k = 0`); with the header already read (peeks, `Next`) the first read
+lies inside the first record and the check after that record is the first to see it (`k = 1`). -/
+def resolveOps : Api → List Op → List Op
+  | _, [] => []
+  | a, op :: ops =>
+    let op' := match op with
+      | .decodeCtxAt 0 => .decodeCtxAt (if a.d.q.hdrDone then 1 else 0)
+      | o => o
+    op' :: resolveOps (step a op').1 ops
+
 def parseOp (o : Opts) (streams : List (List Nat)) (s : String) : Option Op :=
+  if let some k := (stripPrefix? s "decx:").bind String.toNat? then some (.decodeCtxAt k) else
   match s with
   | "dec" => some .decode
   | "decx" => some (.decodeCtx false)
@@ -164,7 +178,7 @@ def parseLine (args : List String) : Option Line := do
   let o ← parseOpts (← optS) fac
   let streams := (← b) :: rs.toList
   let ops ← ((← opsS).splitOn ",").mapM (parseOp o streams)
-  pure ⟨verbose, o, ops, streams⟩
+  pure ⟨verbose, o, resolveOps (Api.fresh o (streams.headD [])) ops, streams⟩
 
 /-- tokens up to and including the first panic / hang -/
 def cut : List (Op × Out × List Event) → List (Op × Out × List Event)
@@ -191,7 +205,8 @@ def fakeSuccess (l : Line) (toks : List String) : Option Nat :=
   let spec := specRun (Spec.fresh l.o (l.streams.headD [])) l.ops
   (((l.ops.zip spec).zip toks).zipIdx.find? (fun (((op, sp), t), _) =>
     match op, sp with
-    | .decode, some (.err _, _) | .decodeCtx _, some (.err _, _) | .discard, some (.err _, _) => t.startsWith "ok"
+    | .decode, some (.err _, _) | .decodeCtx _, some (.err _, _) | .decodeCtxAt _, some (.err _, _) | .discard, some (.err _, _) =>
+      t.startsWith "ok"
     | _, _ => false)).map (·.2)
 
 def propC03 (l : Line) (impl : String) : String :=
